@@ -2676,6 +2676,9 @@ def _argsort(C):
             C.I.emit("complex-order", C.fr, C.node, what="argsort on complex data")
         return elemwise(C, v, alg_argorder, sign=S_NONNEG, dtype="int")
     q = C.num(1)
+    if C.name.endswith("searchsorted") and not v.mono and ("user-fn" in v.tags or "user-im" in v.tags):
+        # bisection needs an ascending first argument; the values of a caller-supplied function are whatever the caller returns
+        C.I.emit("precondition", C.fr, C.node, what="np.searchsorted on the values of a caller-supplied function: nothing makes them ascending")
     side = C.arg(2, "side")
     s = side.const if (side is not None and side.has_const()) else "left"
     alg = {at: alg_argorder(c) for at, c in alg2(v, q, alg_lub).items()}
